@@ -254,6 +254,9 @@ func (n *node) toJV() *jv {
 	switch n.kind {
 	case 'L':
 		body = append(body, kv("label", jInt(int64(n.label))), kv("caps", jStr(string(n.caps))), kv("failReq", jBool(n.failReq)), kv("failRes", jBool(n.failRes)))
+		if n.eclass != 0 {
+			body = append(body, kv("etext", jInt(int64(n.eclass))))
+		}
 		return jObj(kv("verif.Probe", jObj(body...)))
 	case 'U':
 		return jObj(kv(unknownNames[n.variant%len(unknownNames)], jObj(kv("modifiers", jArr()))))
@@ -473,13 +476,15 @@ func decodeJV(j *jv) *node {
 	}
 	switch name {
 	case "verif.Probe":
-		var label int64
+		var label, etext int64
 		var caps string
 		var fq, fs bool
-		ok := decodeStruct(body, []string{"label", "caps", "failReq", "failRes", "scope"}, func(f string, v *jv) (ok bool) {
+		ok := decodeStruct(body, []string{"label", "caps", "failReq", "failRes", "scope", "etext"}, func(f string, v *jv) (ok bool) {
 			switch f {
 			case "label":
 				label, ok = decInt(label, v)
+			case "etext":
+				etext, ok = decInt(etext, v)
 			case "caps":
 				caps, ok = decString(caps, v)
 			case "failReq":
@@ -498,7 +503,11 @@ func decodeJV(j *jv) *node {
 		if caps == "q" || caps == "s" || caps == "z" {
 			c = caps[0]
 		}
-		return &node{kind: 'L', label: int(label), caps: c, failReq: fq, failRes: fs, scope: scopeOf(scope)}
+		ec := 0
+		if etext > 0 {
+			ec = int(etext)
+		}
+		return &node{kind: 'L', label: int(label), eclass: ec, caps: c, failReq: fq, failRes: fs, scope: scopeOf(scope)}
 	case "fifo.Group":
 		var agg bool
 		mods := sl[*jv]{isNil: true}
